@@ -411,25 +411,36 @@ Definition mstep_eqb (a b : mstep) : bool :=
 Definition named_eqb (a b : string * mstep) : bool :=
   (String.eqb (fst a) (fst b) && mstep_eqb (snd a) (snd b))%bool.
 
+(* one run of the implementation on a recipe: [r_start] = dependencies in the continuation file
+   the run started from (empty for a fresh run), [r_evs] = SaveLoad (for a continued run) followed by
+   the references seen in the rows handed to the output stream, [r_final] = the Dependency tuples
+   the run handed to the mapping generator, [r_expected] = the mapping it wrote *)
+Record run_obs := mkRun {
+  r_start : list dep;
+  r_evs : list ev;
+  r_final : list dep;
+  r_expected : result (list (string * mstep))
+}.
+
 Inductive case :=
 | CFree (t : string) (deps : list (string * list string)) (sorted : list string) (expected : bool)
 | CSort (inferred declared : list (string * list string)) (tables : list string)
         (expected : result (list string))
-| CMap (tpls : list ftpl) (deps : list dep) (decls : list decl)
-       (expected : result (list (string * mstep)))
-(* dependencies recorded by the implementation, projected to visible tables / fields:
-   [final] must be what [start] (the content of the continuation file, or empty) becomes
-   after the events *)
-| CDeps (start : list dep) (evs : list ev) (final : list dep).
+| CRecipe (tpls : list ftpl) (decls : list decl) (runs : list run_obs).
+
+(* the recorded dependencies, projected to visible tables / fields (hidden rows never reach the
+   output stream), are what the start state becomes after the events *)
+Definition check_deps (r : run_obs) : bool :=
+  list_eqb dep_eqb (filter dep_visible (run_events (r_evs r) (filter dep_visible (r_start r))))
+           (filter dep_visible (r_final r)).
 
 Definition check_case (c : case) : bool :=
   match c with
   | CFree t deps sorted e => Bool.eqb (is_free (tg_of deps) sorted t) e
   | CSort inf dec tables e =>
     result_eqb (list_eqb String.eqb) (sort_dependencies inf dec tables) e
-  | CMap tpls deps decls e =>
-    result_eqb (list_eqb named_eqb) (mapping_from_recipe tpls deps decls) e
-  | CDeps start evs final =>
-    list_eqb dep_eqb (filter dep_visible (run_events evs (filter dep_visible start)))
-             (filter dep_visible final)
+  | CRecipe tpls decls runs =>
+    forallb (fun r => check_deps r &&
+                      result_eqb (list_eqb named_eqb)
+                                 (mapping_from_recipe tpls (r_final r) decls) (r_expected r))%bool runs
   end.
